@@ -33,8 +33,15 @@ def generate(rng, tier, n):
             t = scale_payoffs(t, 2.0 ** [-1040, -200, 150][(cid // 7) % 3])
         method = rng.choice(["full", "sampled", "external"])
         params = rand_params(rng, wild=rng.random() < 0.4)
-        draws = draws_for(rng, t, st, n=101)
         threads = rng.choice([1, 1, 4])
+        if cid % 7 == 3:
+            # a hidden, unevenly weighted deal near the root with infosets spanning it, odd thread counts: the iterates
+            # of the multi-threaded solvers are the documented ones too
+            from ..solvers import hidden_deal_tree
+            t, st = hidden_deal_tree(rng, outcomes=rng.choice([2, 3, 4]), depth=rng.choice([3, 4]), actions=2)
+            threads = rng.choice([3, 5, 2])
+            method = rng.choice(["full", "full", "sampled"])
+        draws = draws_for(rng, t, st, n=101)
         budgets = range(0, 51) if tier == "thorough" else BUDGETS_Q
         cb = CaseBuilder(cid, t, {"stats": st, "method": method, "params": params, "threads": threads})
         if cid % 3 == 2 and isinstance(params, list):
@@ -61,6 +68,39 @@ def generate(rng, tier, n):
         cases.append(cb)
         cid += 1
     return cases
+
+
+_THREAD_PROBES = [0]
+
+
+def not_judged(cb, impl, dis):
+    """A solve with several threads differs from the specification's iterates.  The specification is sequential; the
+    multi-threaded solvers add the same increments in another order, which the property ("within rounding") allows and
+    which regret matching can amplify where a cumulative regret is zero up to rounding (typically with strongly negative
+    discount exponents).  core.thread_difference_explained decides: the difference is excused only if a one-ulp
+    perturbation of the model, or the model of the multi-threaded solver under another schedule, leaves the model no
+    later than the k-thread run leaves the one-thread run of the implementation itself."""
+    import re
+    from .. import core
+    if cb.meta.get("threads", 1) < 2 or not dis:
+        return dis
+    first = None
+    for kind, text in dis:
+        m = re.match(r"op (\d+) \((solve|named|info)\)", text)
+        if m:
+            j = int(m.group(1))
+            while j >= 0 and cb.ops[j].get("op") != "solve":
+                j -= 1
+            if j >= 0 and int(cb.ops[j].get("threads", 1)) >= 2:
+                first = j
+                break
+    if first is None or _THREAD_PROBES[0] >= 6:
+        return dis
+    _THREAD_PROBES[0] += 1
+    ok, why = core.thread_difference_explained(cb, first, 1e-9, name="condt8_%d" % cb.cid)
+    if ok:
+        return [(k, t) for k, t in dis if k not in ("solve", "named", "info")]
+    return dis
 
 
 def nontrivial(cb, impl):
